@@ -26,7 +26,9 @@ def parseOp (j : Json) : Except String Op := do
     let pl ← nats j "plugin_faults"
     let ts ← nats j "task_faults"
     let base := (j.getObjVal? "base" >>= (·.getBool?)).toOption.getD false
-    pure (.shutdown { plugin := fun p => pl.contains p, task := fun t => ts.contains t, pluginBase := base })
+    let un ← nats j "attr_unreadable"
+    pure (.shutdown { plugin := fun p => pl.contains p, task := fun t => ts.contains t, pluginBase := base,
+                      attrUnreadable := fun p => un.contains p })
   | "new_config" => pure (.newConfig (← nats j "cfg"))
   | "poll_tick" =>
     match (← getOptStr j "fails") with
